@@ -700,6 +700,14 @@ func (e *Exec) conv(tDst, tSrc types.Type, x Value) Value {
 				}
 				return f
 			case kiS.isFlt && kiD.isInt:
+				if sf, ok := x.(SymFloat); ok {
+					// truncation of a non-negative integral float: the seconds themselves
+					i64 := kindInfo{w: 64, isInt: true, signed: true}
+					if sf.sec.T != nil && e.branch(e.boolSc(e.ctx.Slt(sf.sec.T, e.ctx.BV(0, 64)))) {
+						e.cut("negative symbolic float converted to integer")
+					}
+					return e.widen(sf.sec, i64, kiD)
+				}
 				var f float64
 				switch v := x.(type) {
 				case float64:
